@@ -6,7 +6,7 @@ Programs are the AST tuples of vlib/prog.py (so its QML and Coq printers apply).
 from . import prog
 
 OBJS = ["a", "b", "sub"]
-STRS = ["", "a", "hello", "x y", "é", "あ", "q\"r", "%1"]
+STRS = ["", "a", "hello", "x y", "é", "あ", "q\"r", "%1", "l1\u0085l2", "csi\u009b1m", "\u00a0", "\u0080"]     # C1 controls: two bytes in UTF-8, one code unit in UTF-16
 PROP = {"bool": "b", "int": "i", "uint": "u", "string": "s", "vobj": "next", "double": "d"}
 ANNOT = {"bool": ["bool"], "int": ["int"], "uint": ["uint"], "string": ["QString"], "vobj": ["VObj"], "double": ["double"]}
 # short spellings and constants that need all 17 significant digits to be told apart from their neighbours
